@@ -6,6 +6,7 @@ Correspondence: exact — the Lean attribute model (driver `scan-attrs`) vs the 
 Oracle: the generator's own model of each declaration (what is *written*) vs the attributes the real scanner
 extracts, and vs what `SELECT x.getName(), x.getVisibility(), ...` prints through the CLI."""
 import collections, json, os, random, shutil
+from vlib import querygen as QG
 from vlib import common as C, genjava as G, scan as S
 
 LEAN_MODULES = ["Cpf.Props.C05"]
@@ -99,6 +100,50 @@ def javadoc_accessors(run, h, ents, real, text, stats):
                               dict(kind=kind, accessor="GetCommentParam", written_tags=tags, got=row[len(DOC_ACCESSORS)], source=text))
 
 
+def queryable_attributes(run, h, real, text, stats):
+    """what a query reads through an alias is the attribute of *that* alias's entity: every string / list accessor of
+    the three kinds, selected in one-entity queries and in joins of two and three kinds (each alias at every position
+    of the FROM list), against the attribute of the scanned entity"""
+    nodes = {n["id"]: n for n in real["nodes"]}
+    accs = {k: QG.STRING_ACC[k] + QG.LIST_ACC.get(k, []) for k in ("class_declaration", "method_declaration", "variable_declaration")}
+    present = [k for k in accs if any(n["type"] == k for n in nodes.values())]
+
+    def want(n, acc):
+        v = n.get(QG.FIELD[acc])
+        return norm_list(v) if acc in sum(QG.LIST_ACC.values(), []) else (v or "")
+    froms = [[k] for k in present] + [[a, b] for a in present for b in present if a != b]
+    if len(present) == 3:
+        froms += [list(present), list(reversed(present))]
+    for ks in froms:
+        size = 1
+        for k in ks:
+            size *= sum(1 for n in nodes.values() if n["type"] == k)
+        if size == 0 or size > 1500:
+            continue
+        aliases = ["e%d" % i for i in range(len(ks))]
+        cols = [(i, acc) for i, k in enumerate(ks) for acc in accs[k]]
+        q = "FROM %s SELECT %s" % (", ".join("%s AS %s" % (k, a) for k, a in zip(ks, aliases)), ", ".join("%s.%s()" % (aliases[i], acc) for i, acc in cols))
+        r = h.call(op="query-entities", graph="attrs", q=q, timeout=120)
+        run.count(("queryable", q, size))
+        stats["accessor_queries"] += 1
+        if r.get("outcome") != "ok":
+            run.violation("C05:accessor-query-abnormal", "selecting the accessors of %s ends with %s" % (ks, r.get("outcome")), dict(source=text, query=q))
+            continue
+        for tup, row in zip(r["tuples"], r["output"]):
+            for (i, acc), got in zip(cols, row):
+                n = nodes.get(tup[i])
+                if n is None:
+                    continue
+                w = want(n, acc)
+                g_ = norm_list(got) if isinstance(w, list) else got
+                stats["accessor_cells"] += 1
+                if g_ != w:
+                    run.violation("C05:%s:accessor" % ks[i], "in %r the alias %s stands for the %s %r (line %d), but %s.%s() is reported as %r; the entity's attribute is %r" %
+                                  (q[:120], aliases[i], ks[i], n["name"], n["line"], aliases[i], acc, got, w),
+                                  dict(query=q, kind=ks[i], accessor=acc, got=got, want=w, position=i, source=text))
+                    return
+
+
 def run(run, kinds=("class_declaration", "method_declaration", "variable_declaration"), pid="C05", compare=expected_vs_real):
     C.build_driver()
     h, d = C.Harness(), C.Driver()
@@ -119,6 +164,7 @@ def run(run, kinds=("class_declaration", "method_declaration", "variable_declara
                 continue
             if pid == "C05":
                 javadoc_accessors(run, h, ents, real, text, stats)
+                queryable_attributes(run, h, real, text, stats)
             # correspondence of the attribute model (flat view, entity by entity)
             am = d.call("scan-attrs", file, src.hex(), *S.flat_tree(real["tree"]))
             if am[0] == "ok":
